@@ -203,6 +203,8 @@ fn handle_service_error(
         .cid_state
         .track_service_result(failed_value, tetraplet, argument_hash)?;
 
+    // the same as for a failed state met in the data, see handle_prev_state
+    exec_ctx.make_subgraph_incomplete();
     exec_ctx.record_call_cid(&peer_id, &service_result_agg_cid);
     trace_ctx.meet_call_end(Failed(service_result_agg_cid));
 
@@ -243,6 +245,7 @@ fn try_to_service_result(
                 exec_ctx
                     .cid_state
                     .track_service_result(failed_value, tetraplet.clone(), argument_hash.clone())?;
+            exec_ctx.make_subgraph_incomplete();
             exec_ctx.record_call_cid(&tetraplet.peer_pk, &service_result_agg_cid);
             let error = CallResult::failed(service_result_agg_cid);
 
